@@ -75,7 +75,8 @@ def k_volume(path: str, m1: str, m2: str) -> str:
     return rt.ok()
 
 
-WHERE = ['home-volume', 'v', 'nested-v-n', 'via-link-into-v', 'via-link-into-root', 'mount-root-of-v']
+WHERE = ['home-volume', 'v', 'nested-v-n', 'via-link-into-v', 'via-link-into-root', 'mount-root-of-v', 'symlink-to-dir-on-v-with-slash',
+         'symlink-to-dir-on-root-with-slashes']
 ALT = ['absent', 'dir', 'file', 'link-other-volume', 'link-same-volume']
 HOMEK = ['normal', 'home-trash-link-to-v', 'xdg-set', 'xdg-empty', 'home-unset', 'home-on-own-volume', 'xdg-set-on-v']
 UIDS = [1000, 0, 2 ** 31]
@@ -116,9 +117,19 @@ def scenario(where, top, alt, hk, uid, tdo, fb):
     elif w == 'via-link-into-root':
         nodes.append(W.l('/v/lr', '/r/d', 932))
         fdir, arg = '/r/d', '/v/lr/x'
+    elif w == 'symlink-to-dir-on-v-with-slash':
+        fdir, arg = '/r/d', '/r/d/x/'
+    elif w == 'symlink-to-dir-on-root-with-slashes':
+        fdir, arg = '/v/d', '/v/d/x//'
     else:
         fdir, arg = '/v', '/v/x'
-    nodes += K.entry_nodes('dir', fdir + '/x', 1000, out='/v/out')
+    if w == 'symlink-to-dir-on-v-with-slash':
+        # the entry is a symbolic link living on the root volume whose target is a directory on /v
+        nodes += [W.d('/v/tgt'), W.f('/v/tgt/in', 'IN', 0o644, 940), W.l('/r/d/x', '/v/tgt', 1000)]
+    elif w == 'symlink-to-dir-on-root-with-slashes':
+        nodes += [W.d('/r/tgt'), W.f('/r/tgt/in', 'IN', 0o644, 941), W.l('/v/d/x', '/r/tgt', 1000)]
+    else:
+        nodes += K.entry_nodes('dir', fdir + '/x', 1000, out='/v/out')
     nodes += K.sentinels('/v/out')
     # the file's volume
     fvol = '/'
@@ -254,28 +265,28 @@ def _case(where, top, alt, hk, uid, tdo, fb):
 def w_main(where: int, top: int, alt: int, hk: int, uid: int) -> str:
     """
     pre: PARTITION is None or where == PARTITION
-    pre: 0 <= where < 6 and 0 <= top < 6 and 0 <= alt < 5 and 0 <= hk < 7 and 0 <= uid < 3
+    pre: 0 <= where < 8 and 0 <= top < 9 and 0 <= alt < 5 and 0 <= hk < 7 and 0 <= uid < 3
     post: _ == ''
     """
-    return _case(rt.sel(where, 6), rt.sel(top, 6), rt.sel(alt, 5), rt.sel(hk, 7), rt.sel(uid, 3), 0, 0)
+    return _case(rt.sel(where, 8), rt.sel(top, 9), rt.sel(alt, 5), rt.sel(hk, 7), rt.sel(uid, 3), 0, 0)
 
 
 def w_opts(where: int, top: int, alt: int, hk: int, tdo: int, fb: int) -> str:
     """
     pre: PARTITION is None or where == PARTITION
-    pre: 0 <= where < 6 and 0 <= top < 3 and 0 <= alt < 5 and 0 <= hk < 7 and 0 <= tdo < 4 and 0 <= fb < 4
+    pre: 0 <= where < 8 and 0 <= top < 3 and 0 <= alt < 5 and 0 <= hk < 7 and 0 <= tdo < 4 and 0 <= fb < 4
     post: _ == ''
     """
-    return _case(rt.sel(where, 6), rt.of([0, 1, 2], top), rt.sel(alt, 5), rt.sel(hk, 7), 0, rt.sel(tdo, 4), rt.sel(fb, 4))
+    return _case(rt.sel(where, 8), rt.of([0, 1, 2], top), rt.sel(alt, 5), rt.sel(hk, 7), 0, rt.sel(tdo, 4), rt.sel(fb, 4))
 
 
 def w_full(where: int, top: int, alt: int, hk: int, uid: int, tdo: int, fb: int) -> str:
     """
     pre: PARTITION is None or (where == PARTITION[0] and top == PARTITION[1])
-    pre: 0 <= where < 6 and 0 <= top < 6 and 0 <= alt < 5 and 0 <= hk < 7 and 0 <= uid < 3 and 0 <= tdo < 4 and 0 <= fb < 4
+    pre: 0 <= where < 8 and 0 <= top < 9 and 0 <= alt < 5 and 0 <= hk < 7 and 0 <= uid < 3 and 0 <= tdo < 4 and 0 <= fb < 4
     post: _ == ''
     """
-    return _case(rt.sel(where, 6), rt.sel(top, 6), rt.sel(alt, 5), rt.sel(hk, 7), rt.sel(uid, 3), rt.sel(tdo, 4), rt.sel(fb, 4))
+    return _case(rt.sel(where, 8), rt.sel(top, 9), rt.sel(alt, 5), rt.sel(hk, 7), rt.sel(uid, 3), rt.sel(tdo, 4), rt.sel(fb, 4))
 
 
 def obligations(tier):
@@ -285,12 +296,12 @@ def obligations(tier):
         CH('K_volume_of_longest_prefix', MOD, 'k_volume', timeout=300, engine='K', regime='traced',
            encodes=['VolumeOfImpl.volume_of'], stubs=['ismount -> membership in a symbolic mount list', 'abspath -> identity'],
            bounds='path: normalised absolute str len<=5; two symbolic mount points len<=3/4 plus "/"'),
-        CH('W_where_x_states_x_home_x_uid', MOD, 'w_main', timeout=1200, partitions=list(range(6)), engine='W', regime='selector',
-           encodes=K.PUT_FUNCS, stubs=K.STUBS, bounds='6 file locations x 6 .Trash states x 5 .Trash-uid states x 7 home variants x 3 uids'),
-        CH('W_trashdir_opt_and_fallback', MOD, 'w_opts', timeout=1800, partitions=list(range(6)), engine='W', regime='selector',
+        CH('W_where_x_states_x_home_x_uid', MOD, 'w_main', timeout=1200, partitions=list(range(8)), engine='W', regime='selector',
+           encodes=K.PUT_FUNCS, stubs=K.STUBS, bounds='8 file locations (incl. symlinks to a directory on another volume spelled with trailing slashes) x 9 .Trash states x 5 .Trash-uid states x 7 home variants x 3 uids'),
+        CH('W_trashdir_opt_and_fallback', MOD, 'w_opts', timeout=1800, partitions=list(range(8)), engine='W', regime='selector',
            encodes=K.PUT_FUNCS, stubs=K.STUBS, bounds='6 locations x 3 .Trash states x 5 .Trash-uid x 7 home variants x 4 --trash-dir x 4 fallback switches'),
     ]
     if tier == 'thorough':
-        obs.append(CH('W_full_lattice', MOD, 'w_full', timeout=7000, partitions=[(a, b) for a in range(6) for b in range(6)], twin=False,
-                      engine='W', regime='selector', encodes=K.PUT_FUNCS, stubs=K.STUBS, bounds='6 x 6 x 5 x 7 x 3 x 4 x 4 = 60480 configurations'))
+        obs.append(CH('W_full_lattice', MOD, 'w_full', timeout=7000, partitions=[(a, b) for a in range(8) for b in range(9)], twin=False,
+                      engine='W', regime='selector', encodes=K.PUT_FUNCS, stubs=K.STUBS, bounds='8 x 9 x 5 x 7 x 3 x 4 x 4 = 120960 configurations'))
     return obs
